@@ -39,9 +39,13 @@ Fail(c) == err' = c /\ UNCHANGED <<tid, l, fin, ptr, wait>>
 
 ResetEv ==
     /\ Ev.k = "reset"
-    /\ IF Ev.ptr # 0 THEN Fail("reset-does-not-restore-priority-0")
-       ELSE /\ ptr' = 0 /\ wait' = [i \in A!Inputs(T.n) |-> 0]
-            /\ l' = l + 1 /\ UNCHANGED <<tid, err, fin>>
+    /\ LET R == ToSet(Ev.reqs)
+           G == ToSet(Ev.grants)
+       IN  IF ~(R \subseteq A!Inputs(T.n))                 THEN Fail("bad-trace-reqs")
+           ELSE IF G # A!Grant(T.n, ptr, R)                THEN Fail("wrong-winner-during-reset")
+           ELSE IF Ev.ptr # 0                              THEN Fail("reset-does-not-restore-priority-0")
+           ELSE /\ ptr' = 0 /\ wait' = [i \in A!Inputs(T.n) |-> 0]
+                /\ l' = l + 1 /\ UNCHANGED <<tid, err, fin>>
 
 CycleEv ==
     /\ Ev.k = "cycle"
